@@ -3,6 +3,7 @@ package pp
 import (
 	"context"
 	"net"
+	"strings"
 	"sync"
 	"time"
 
@@ -62,6 +63,11 @@ func NewLive(hub *simnet.Hub, o LiveOpts) (*Live, error) {
 	conf.NAT = nil
 	conn := hub.Listen(o.IP, o.Port)
 	ln := LocalNode(o.KeyIdx, o.IP, o.Port, o.Versions)
+	if o.RespTimeout == 0 {
+		// the library default of 700 ms produces spurious time-outs on a loaded machine; where a time-out is
+		// the intended outcome the caller sets a short value explicitly
+		o.RespTimeout = 3 * time.Second
+	}
 	dcfg := discover.Config{PrivateKey: gen.Key(o.KeyIdx), V5RespTimeout: o.RespTimeout}
 	disc, err := discover.ListenV5(conn, ln, dcfg)
 	if err != nil {
@@ -208,3 +214,13 @@ func (m *MemStore) SetRadius(r *uint256.Int) {
 }
 
 func (m *MemStore) Close() error { return nil }
+
+// IsTimeout reports whether an error is a time-out of discv5 / uTP / a context: an outcome of a loaded
+// machine or a faulty link, never by itself a verdict.
+func IsTimeout(err error) bool {
+	if err == nil {
+		return false
+	}
+	m := strings.ToLower(err.Error())
+	return strings.Contains(m, "timeout") || strings.Contains(m, "timed out") || strings.Contains(m, "deadline exceeded")
+}
